@@ -278,19 +278,26 @@ def eq_is_conjunction(prog: Program, res, rule: str, ci: ClassInfo, eq) -> None:
             return None
 
         consts = [(p, _sx.strip_wrappers(p.value).value) for p in paths if p.outcome == "return" and p.value is not None and isinstance(_sx.strip_wrappers(p.value), ast.Constant) and isinstance(_sx.strip_wrappers(p.value).value, bool)]
+        computed = [p for p in paths if p.outcome == "return" and p.value is not None and isinstance(_sx.strip_wrappers(p.value), (ast.Compare, ast.BoolOp, ast.Call))]  # e.g. `return self.x == other.x` as the last step
         decided = [(p, val_, [d for d in (differs(t, pol) for t, pol in p.literals()) if d is not None]) for p, val_ in consts]
+
+        def only_components(p) -> bool:
+            """every decision of the path, apart from the same-type guard, is a comparison of components"""
+            rest = [(t, pol) for t, pol in p.literals() if not (isinstance(t, ast.Call) and isinstance(t.func, ast.Name) and t.func.id == "isinstance" and len(t.args) == 2 and isinstance(t.args[0], ast.Name) and t.args[0].id == ot_)]
+            return bool(rest) and all(differs(t, pol) is not None for t, pol in rest)
+
         if any(ds for _p, _v, ds in decided):
             for p, val_, ds in decided:
                 if val_ is True and any(ds):
                     res.violation(rule, eq, p.node or eq.node, f"{ci.name}.__eq__ returns True on a path on which components of the operands were found different [{p.cond_text()[:80]}]", key_extra="eq-true-when-different")
                     return
-                if val_ is False and ds and not any(ds):
+                if val_ is False and ds and not any(ds) and only_components(p):
                     res.violation(rule, eq, p.node or eq.node, f"{ci.name}.__eq__ returns False because components of the operands are EQUAL [{p.cond_text()[:80]}]: an object does not compare equal to an identical copy of itself", key_extra="eq-false-when-equal")
                     return
-            if not any(v_ is True for _p, v_, _d in decided):
+            if not any(v_ is True for _p, v_, _d in decided) and not computed:
                 res.violation(rule, eq, eq.node, f"{ci.name}.__eq__ never returns True for two objects of the same type", key_extra="eq-never-true")
                 return
-            if not any(v_ is False and any(ds) for _p, v_, ds in decided):
+            if not any(v_ is False and any(ds) for _p, v_, ds in decided) and not computed:
                 res.violation(rule, eq, eq.node, f"{ci.name}.__eq__ never returns False for components that differ: all objects of the type compare equal", key_extra="eq-never-false")
                 return
             res.ok(rule, res.site(eq, "component loop"), "True only when no component differs, False when one does", nontrivial=False)
